@@ -317,4 +317,20 @@ Section Spec.
     is_nil (the_entries (flat x)) || negb (mem "" (keys (i_ident x))).
 
   Definition guard (x : input) : bool := wf x.
+
+  (* ---- the life of one Policy object: what is released by a call is judged against the user, the
+     requester AS DESCRIBED AT THE TIME OF THAT CALL (declared required/optional attributes, entity
+     categories, registration authority: st_md) and the policy configuration - never against what an
+     earlier call on the same object was entitled to.  The property text quantifies over "any user
+     identity, requester and policy configuration": an earlier call is not among the things that can
+     permit a release. *)
+  Definition spec_life (p : policy) (l : list step) (os : list output) : Prop :=
+    Forall2 (fun s o => spec (flat (step_input p s)) o) l os.
+
+  Definition spec_life_b (p : policy) (l : list step) (os : list output) : bool :=
+    Nat.eqb (length l) (length os)
+    && forallb (fun so => spec_b (step_input p (fst so)) (snd so)) (combine l os).
+
+  Definition guard_life (p : policy) (l : list step) : bool :=
+    forallb (fun s => guard (step_input p s)) l.
 End Spec.
